@@ -89,22 +89,27 @@ def judge(cs, rec):
         return "violation", "the written file cannot be read back: %s" % rec["read_error"]
     exp = cs["exp"]
     d = None
-    for which in ("read", "read2"):
+    if rec.get("read3_error"):
+        return "violation", "the written file cannot be read into a force field that already holds a molecule of that name: %s" % rec["read3_error"]
+    reads = ("read", "read2") + (("read3",) if "read3" in rec else ())
+    label = {"read": "Topology.from_gmx_topfile", "read2": "MetaMolecule.from_itp", "read3": "MetaMolecule.from_itp into a force field that already held another molecule of that name"}
+    for which in reads:
         d = _mol_diff(exp, rec[which])
         if d:
-            d = "%s: %s" % ("Topology.from_gmx_topfile" if which == "read" else "MetaMolecule.from_itp", d)
+            d = "%s: %s" % (label[which], d)
             break
     if d:
         # exact classifier of a known finding: the law fails for this molecule in the specification itself (TLC names the clause) and
         # the code returns precisely what the specification's Write/Read give (pred)
-        if not cs["law"] and cs["pred"]["finding"] in (SIG_MASS, SIG_ARZ) and not _mol_diff(cs["pred"], rec["read"]) and not _mol_diff(cs["pred"], rec["read2"]):
+        if not cs["law"] and cs["pred"]["finding"] in (SIG_MASS, SIG_ARZ) and all(not _mol_diff(cs["pred"], rec[w]) for w in reads):
             return "known:" + cs["pred"]["finding"], d
         return "violation", d
     if not cs["missing"] and not rec["missing"]:
-        for which in ("rg", "rg2"):
+        rgs = ("rg", "rg2") + (("rg3",) if "rg3" in rec else ())
+        for which in rgs:
             if _graph(rec[which]) != _graph(cs["rg"]):
                 what = "no link is missing but the residue graph recovered from the file is %s, requested %s" % (_graph(rec[which]), _graph(cs["rg"]))
-                if not cs["rglaw"] and _graph(rec["rg"]) == _graph(cs["pred"]["rg"]) and _graph(rec["rg2"]) == _graph(cs["pred"]["rg"]):
+                if not cs["rglaw"] and all(_graph(rec[w]) == _graph(cs["pred"]["rg"]) for w in rgs):
                     return "known:" + SIG_EDGE, what
                 return "violation", what
     return "ok", ""
@@ -121,8 +126,10 @@ def _replay_chunk(arg):
     """one chunk file of exported cases -> [(index, status, what, record for the trace stage | None, digest, case when it is needed)]"""
     import hashlib
     path, keep_every, nmain = arg
+    import vermouth.forcefield
     items = json.loads(Path(path).read_text())
     res = []
+    prev_text = None
     for idx, cs in items:
         with tempfile.TemporaryDirectory(prefix="verif_c11_", dir="/var/tmp") as wd:
             try:
@@ -130,6 +137,20 @@ def _replay_chunk(arg):
             except ValueError as exc:     # the instance promised a molecule that links can make
                 res.append((idx, "machinery", "cannot render: %s" % exc, None, "", None))
                 continue
+            if rec["written"] and not rec["exception"]:
+                # the same file read by from_itp into a force field that already holds the previously generated molecule of the same
+                # moleculetype name: what the file says must not depend on what the force field held before
+                if prev_text is not None:
+                    ff = vermouth.forcefield.ForceField("in use")
+                    Path(wd, "previous.itp").write_text(prev_text)
+                    first = iu.read_into(ff, Path(wd, "previous.itp"), rec["name"])
+                    if "read_error" not in first:
+                        r3 = iu.read_into(ff, rec["out"], rec["name"])
+                        if "read_error" in r3:
+                            rec["read3_error"] = r3["read_error"]
+                        else:
+                            rec["read3"], rec["rg3"] = r3["read"], r3["rg"]
+                prev_text = rec["text"]
         status, what = judge(cs, rec)
         slim = None
         if status == "ok" and keep_every and idx % keep_every == 0 and idx < nmain:
@@ -401,10 +422,16 @@ def _hist_chunk(arg):
     doc = json.loads(Path(path).read_text())
     mols = doc["mols"]
     res = []
+    import vermouth.forcefield
+    from polyply.src.load_library import load_ff_library
     for hid, hist in doc["hists"]:
         bad = None
+        shared = None        # the one force field of the process that from_itp reads into (op "readff")
         with tempfile.TemporaryDirectory(prefix="verif_c11h_", dir="/var/tmp") as wd:
             for k, op in enumerate(hist):
+                if op["op"] == "init":
+                    shared = "lib" if op["path"] == "lib" else vermouth.forcefield.ForceField("in use")
+                    continue
                 cs = mols[op["m"] - 1]
                 itp = Path(wd) / ("%s.itp" % op["path"])
                 if op["op"] == "gen":
@@ -417,6 +444,21 @@ def _hist_chunk(arg):
                                           "-o", itp.name], wd, keep_existing=True)
                     if rec["exception"] or not rec["written"]:
                         bad = (k, "gen_params did not write %s (%s)" % (itp.name, rec["exception"] or "the file at the path was not replaced"))
+                        break
+                    if shared == "lib":
+                        # the force field the molecule was generated from: it holds the residue block the molecule is named after
+                        shared = load_ff_library("in use", None, [sub / "in.ff"])
+                elif op["op"] == "readff":
+                    rb = iu.read_into(shared, itp, cs["mol"]["name"])
+                    if rb.get("read_error"):
+                        bad = (k, "the file cannot be read: %s" % rb["read_error"])
+                        break
+                    d = _mol_diff(cs["exp"], rb["read"])
+                    if not d and not cs["missing"] and _graph(rb["rg"]) != _graph(cs["rg"]):
+                        d = "the residue graph recovered from the file is %s, requested %s" % (_graph(rb["rg"]), _graph(cs["rg"]))
+                    if d:
+                        bad = (k, "%s was read with MetaMolecule.from_itp into a force field in use (it already held a block named %s) after molecule %d had "
+                                  "been written there, but the reader returned something else: %s" % (itp.name, cs["mol"]["name"], op["m"], d))
                         break
                 else:
                     rb = iu.read_back(itp, cs["mol"]["name"], wd)
@@ -442,6 +484,19 @@ def _hist_chunk(arg):
     return res
 
 
+def _reuses(hist):
+    """a from_itp read into the long-lived force field while it holds a block of that name that is not the file's molecule"""
+    held = None
+    for op in hist:
+        if op["op"] == "init":
+            held = 0 if op["path"] == "lib" else None
+        elif op["op"] == "readff":
+            if held is not None and held != op["m"]:
+                return True
+            held = op["m"]
+    return False
+
+
 def _rewrites(hist):
     """a read of a path that was read before and rewritten with another molecule since"""
     seen = {}
@@ -453,9 +508,10 @@ def _rewrites(hist):
     return False
 
 
-def history_replay(ck, res, tier, rng):
+def history_replay(ck, res, resff, tier, rng):
     mols = res.tagged("HMOLS")
     hists = res.tagged("HIST")
+    hff = resff.tagged("HIST")
     if not mols or len(hists) < 500:
         raise c.MachineryError("ItpRoundTripHist exported %d molecule tables / %d histories" % (len(mols), len(hists)))
     mols = mols[0]
@@ -467,12 +523,20 @@ def history_replay(ck, res, tier, rng):
     rest = [h for h in hists if not _rewrites(h)]
     ck.extra["histories_exported"] = len(hists)
     ck.extra["histories_with_reread_after_rewrite"] = len(rew)
-    nrew, nrest = (350, 150) if tier == "quick" else (3000, 1000)
+    keyff = {json.dumps(h, sort_keys=True): h for h in hff}
+    hff = [keyff[k] for k in sorted(keyff)]
+    reuse = [h for h in hff if _reuses(h)]
+    ffrest = [h for h in hff if not _reuses(h)]
+    ck.extra["ff_histories_exported"] = len(hff)
+    ck.extra["ff_histories_reading_into_a_force_field_that_holds_another_block_of_the_name"] = len(reuse)
+    nrew, nrest, nreuse, nffrest = (350, 150, 300, 100) if tier == "quick" else (2000, 500, 1500, 300)
     rest = rng.sample(rest, min(len(rest), nrest))
     rew = rng.sample(rew, min(len(rew), nrew))
-    todo = list(enumerate(rew + rest))
-    if len(rew) < 50 and not ck.violations:
-        raise c.MachineryError("too few histories read a path again after it was rewritten (%d)" % len(rew))
+    reuse = rng.sample(reuse, min(len(reuse), nreuse))
+    ffrest = rng.sample(ffrest, min(len(ffrest), nffrest))
+    todo = list(enumerate(rew + rest + reuse + ffrest))
+    if (len(rew) < 50 or len(reuse) < 50) and not ck.violations:
+        raise c.MachineryError("too few histories read a path again after it was rewritten (%d) / read into a force field in use (%d)" % (len(rew), len(reuse)))
     wdir = c.workdir(PROP, "hist_export")
     parts = []
     for k, ch in enumerate(c.chunks(todo, c.NPROC * 3)):
@@ -490,9 +554,9 @@ def history_replay(ck, res, tier, rng):
             if bad:
                 k, what = bad
                 ck.violation({"kind": "history", "mols": mols, "history": h, "step": k},
-                             what="in-process history %s: operation %d: %s" % (" ".join("%s(%s,%d)" % (o["op"], o["path"], o["m"]) for o in h), k + 1, what))
+                             what="in-process history %s: operation %d: %s" % (" ".join("%s(%s,%d)" % (o["op"], o["path"], o["m"]) for o in h), k, what))
     ck.extra["histories_replayed"] = len(todo)
-    ck.sample({"history (S->I)": rew[0], "molecules by index": [{"atoms": len(m["mol"]["atoms"]), "residues": len(m["mol"]["rnodes"]),
+    ck.sample({"history (S->I)": rew[0], "history with a long-lived force field (S->I)": reuse[0], "molecules by index": [{"atoms": len(m["mol"]["atoms"]), "residues": len(m["mol"]["rnodes"]),
                                                                    "interactions": [(x["sec"], x["gk"]) for x in m["mol"]["inter"]]} for m in mols]})
 
 
@@ -500,26 +564,37 @@ LIBSEQ = [("martini3", "PEO"), ("martini3", "PS"), ("martini3", "PE"), ("martini
 
 
 def _hist_trace_one(seed):
-    """I->S: one seeded history in this one process: 8-12 operations on 2-3 output paths, molecules = random polymers / library homopolymers
+    """I->S: one seeded history in this one process: 10-14 operations on 2-3 output paths, molecules = random polymers / library homopolymers
     of varying length, all written as moleculetype 'poly'"""
+    import vermouth.forcefield
+    from polyply.src.load_library import load_ff_library
     rng = random.Random(seed)
     paths = ["P1", "P2", "P3"][:rng.choice([2, 2, 3])]
     events, have = [], set()
+    # every third history: homopolymers named after their residue (-name PEO -seq PEO:n), read into the loaded library itself
+    named = seed % 3 == 0
+    if named:
+        lib, blk = rng.choice(LIBSEQ)
+        name, shared = blk, load_ff_library("in use", [lib], [])
+    else:
+        name, shared = "poly", vermouth.forcefield.ForceField("in use")
     with tempfile.TemporaryDirectory(prefix="verif_c11h_", dir="/var/tmp") as wd:
-        for k in range(rng.randint(8, 12)):
+        for k in range(rng.randint(10, 14)):
             p = rng.choice(paths)
             itp = Path(wd) / ("%s.itp" % p)
-            if p not in have or rng.random() < 0.45:
-                if rng.random() < 0.7:
+            if p not in have or rng.random() < 0.4:
+                if named:
+                    argv = ["polyply", "gen_params", "-lib", lib, "-seq", "%s:%d" % (blk, rng.randint(2, 6)), "-name", name, "-o", itp.name]
+                elif rng.random() < 0.7:
                     sub = Path(wd) / ("in_%d" % k)
                     sub.mkdir()
                     ff, seq, _ = iu.random_polymer(rng, exotic=False)
                     (sub / "in.ff").write_text(ff)
                     (sub / "seq.json").write_text(seq)
-                    argv = ["polyply", "gen_params", "-f", str(sub / "in.ff"), "-seqf", str(sub / "seq.json"), "-name", "poly", "-o", itp.name]
+                    argv = ["polyply", "gen_params", "-f", str(sub / "in.ff"), "-seqf", str(sub / "seq.json"), "-name", name, "-o", itp.name]
                 else:
-                    lib, blk = rng.choice(LIBSEQ)
-                    argv = ["polyply", "gen_params", "-lib", lib, "-seq", "%s:%d" % (blk, rng.randint(2, 6)), "-name", "poly", "-o", itp.name]
+                    lib2, blk2 = rng.choice(LIBSEQ)
+                    argv = ["polyply", "gen_params", "-lib", lib2, "-seq", "%s:%d" % (blk2, rng.randint(2, 6)), "-name", name, "-o", itp.name]
                 rec = iu.run_command(argv, wd, keep_existing=True)
                 if not rec["accepted"]:
                     continue
@@ -528,11 +603,16 @@ def _hist_trace_one(seed):
                                "lines": iu.tokenise(rec["text"]), "argv": argv[:2] + [a for a in argv[2:] if not a.startswith("/")], "exception": rec["exception"]})
                 if rec["written"]:
                     have.add(p)
-            else:
-                rb = iu.read_back(itp, "poly", wd)
+            elif rng.random() < 0.5:
+                rb = iu.read_back(itp, name, wd)
                 empty = {"name": "", "nrexcl": "", "atoms": [], "inter": []}
                 events.append({"op": "read", "path": p, "now": iu.tokenise(itp.read_text()), "readok": "read_error" not in rb,
                                "read": rb.get("read", empty), "read2": rb.get("read2", empty), "read_error": rb.get("read_error", "")})
+            else:
+                rb = iu.read_into(shared, itp, name)
+                empty = {"name": "", "nrexcl": "", "atoms": [], "inter": []}
+                events.append({"op": "readff", "path": p, "now": iu.tokenise(itp.read_text()), "readok": "read_error" not in rb,
+                               "read": rb.get("read", empty), "read2": rb.get("read", empty), "read_error": rb.get("read_error", "")})
     return seed, events
 
 
@@ -568,18 +648,24 @@ def validate_histories(ck, traces, name, count=True):
 
 
 def history_traces(ck, tier, sd):
-    n = 60 if tier == "quick" else 400
+    n = 90 if tier == "quick" else 400
     outs = c.pmap(_hist_trace_one, [sd * 100000 + 70000 + k for k in range(n)])
     traces = [ev for _, ev in outs if ev]
     seeds = [s for s, ev in outs if ev]
     rejected = validate_histories(ck, traces, "hist_traces")
-    rereads = 0
+    rereads = ffreuse = 0
     for i, tr in enumerate(traces):
         gens, readat = {}, {}
+        held = "library" if seeds[i] % 3 == 0 else None
         for e in tr:
+            if e["op"] == "readff":
+                now = json.dumps(e["now"])
+                if held is not None and held != now:
+                    ffreuse += 1            # the force field held the library's block / another molecule of that name
+                held = now
             if e["op"] == "gen":
                 gens[e["path"]] = gens.get(e["path"], 0) + 1
-            else:
+            elif e["op"] == "read":
                 if e["path"] in readat and readat[e["path"]] != gens.get(e["path"], 0):
                     rereads += 1            # the path was read before and has been rewritten since
                 readat[e["path"]] = gens.get(e["path"], 0)
@@ -597,8 +683,10 @@ def history_traces(ck, tier, sd):
         ck.count(n=len(tr))
     ck.extra["history_traces"] = len(traces)
     ck.extra["history_trace_rereads_after_rewrite"] = rereads
-    if rereads < 20 and not ck.violations:
-        raise c.MachineryError("the recorded histories hardly ever read a path again after rewriting it (%d)" % rereads)
+    ck.extra["history_trace_reads_into_force_field_holding_another_block"] = ffreuse
+    if (rereads < 20 or ffreuse < 20) and not ck.violations:
+        raise c.MachineryError("the recorded histories hardly ever read a path again after rewriting it (%d) / read into a force field that holds "
+                               "another block of the name (%d)" % (rereads, ffreuse))
     # binding demonstration: a read that returns what the path held BEFORE the last write must be rejected
     demo = None
     for i, tr in enumerate(traces):
@@ -636,6 +724,7 @@ def model_jobs(tier):
     for d in DEVS:
         jobs.append(("dev:" + d, "Itp_Dev", "Itp_dev_%s.cfg" % d, {"workers": 1, "check": False, "dfs": True}))
     jobs.append(("hist:dev:readerCaches", "ItpRoundTripHist", "Itp_hist_dev_readerCaches.cfg", {"workers": 1, "check": False}))
+    jobs.append(("hist:dev:readerReusesBlock", "ItpRoundTripHist", "Itp_hist_dev_readerReusesBlock.cfg", {"workers": 1, "check": False}))
     jobs.append(("hist:dev:writerAppends", "ItpRoundTripHist", "Itp_hist_dev_writerAppends.cfg", {"workers": 1, "check": False}))
     jobs.append(("find:mass", "Itp_MassOnly", "Itp_find_massonly.cfg", {"workers": 1, "check": False}))
     jobs.append(("find:edge", "Itp_Unbacked", "Itp_find_unbacked.cfg", {"workers": 1, "check": False}))
@@ -676,10 +765,12 @@ def run(tier):
     th = threading.Thread(target=background)
     th.start()
     try:
-        ex, exf, exh = c.tlc_many([("Itp_Quick" if tier == "quick" else "Itp_Full", "Itp_export.cfg", {"workers": 3, "timeout": 3000}),
+        ex, exf, exh, exhf = c.tlc_many([("Itp_Quick" if tier == "quick" else "Itp_Full", "Itp_export.cfg", {"workers": 3, "timeout": 3000}),
                                    ("Itp_Find", "Itp_export_find.cfg", {"workers": 1}),
-                                   ("ItpRoundTripHist", "Itp_hist_deep.cfg", {"workers": 3, "timeout": 3000})],
+                                   ("ItpRoundTripHist", "Itp_hist_deep.cfg", {"workers": 3, "timeout": 3000}),
+                                   ("ItpRoundTripHist", "Itp_hist_ff.cfg", {"workers": 2, "timeout": 3000})],
                                   workers_each=None)
+        ck.model_must_hold(exhf, "ReadIsCurrent with reads through from_itp into one long-lived force field (fresh, or holding the generating library's block)")
         ck.model_must_hold(exh, "ReadIsCurrent / FsHoldsWrite / OnlyWritesChangeFiles on all histories of gen/read operations over two paths")
         ck.model_must_hold(ex, "RoundTrip / ResGraphLaw for the declarative Write and Read on every molecule of the instance")
         ck.add_tlc(exf)
@@ -750,8 +841,8 @@ def run(tier):
         ck.require(len(pick) >= 20 and nov <= len(pick) // 5, "gen_coords subset too small or too many runs without verdict (%d of %d)" % (nov, len(pick)))
         # ---- 3b. in-process histories
         ck.stage("S->I: in-process histories (write to the same paths again and again, read in between)")
-        history_replay(ck, exh, tier, rng)
-        exh.out = ""
+        history_replay(ck, exh, exhf, tier, rng)
+        exh.out = exhf.out = ""
         ck.stage("I->S: seeded in-process histories validated by ItpRoundTripHistTrace")
         history_traces(ck, tier, sd)
         # ---- 4. I->S
@@ -777,6 +868,7 @@ def run(tier):
     for d in DEVS:
         ck.model_must_refute(results["dev:" + d], "RoundTripI", "deviation %s" % d)
     ck.model_must_refute(results["hist:dev:readerCaches"], "ReadIsCurrent", "the reader caches included files by path for the life of the process")
+    ck.model_must_refute(results["hist:dev:readerReusesBlock"], "ReadIsCurrent", "from_itp does not parse the file when the force field already has a block of that name")
     ck.model_must_refute(results["hist:dev:writerAppends"], "ReadIsCurrent", "the writer appends to an existing output file")
     ck.model_must_refute(results["find:mass"], "LawsAtStart", "an atom with a mass but no charge (finding %s)" % SIG_MASS)
     ck.model_must_refute(results["find:edge"], "LawsAtStart", "a linked residue pair without bond or constraint (finding %s)" % SIG_EDGE)
